@@ -842,12 +842,12 @@ Proof. intros H. destruct (N.eqb_spec a b); [contradiction|reflexivity]. Qed.
 
 Lemma post_ok c s' m' rk a b : LogInv (c_script c) s' ->
   Post (is_read (c_op c)) (is_exact (c_op c)) (c_target c) (c_addr c) (c_count c) (stream0 c) (c_mem c) s' m' (rk, a, b) ->
-  ok_C14 c {| o_rk := rk; o_a := a; o_b := b; o_calls := nlen (k_done s');
+  ok_C14_core c {| o_rk := rk; o_a := a; o_b := b; o_calls := nlen (k_done s');
               o_moved := if is_read (c_op c) then nlen (c_src c) - nlen (k_src s') else nlen (k_sink s');
               o_sink := k_sink s'; o_mem := m' |} = true.
 Proof.
   intros Hli (k & HG & Hkc & (H4 & He & Hh) & HR). cbn [rk_of fst snd] in *.
-  unfold ok_C14. cbn [o_rk o_a o_b o_calls o_moved o_sink o_mem].
+  unfold ok_C14_core. cbn [o_rk o_a o_b o_calls o_moved o_sink o_mem].
   rewrite (LogInv_calls_made _ _ Hli).
   assert (Hmoved : (if is_read (c_op c) then nlen (c_src c) - nlen (k_src s') else nlen (k_sink s')) = k).
   { destruct (is_read (c_op c)); cbn [GMoved] in HG.
@@ -884,9 +884,413 @@ Proof.
   - apply N.leb_le. exact Hkc.
 Qed.
 
+(* ------------------------------------------------------------------ 6b. progress of the exact forms
+   WHY an exact form stopped short of the count: the last call of retry_eintr! is the one whose result it returns;
+   the exact loop returns its zero error only after a call that answered Ok(0) on a non-empty window; a scripted
+   stream answers Ok(0) there only by a zero-ish behaviour (Zero, Short 0, script over) or - a reader - because its
+   source is exhausted. *)
+Lemma retry_last {S} (call : callT S) : forall fuel s m v s' m' r,
+  retry_eintr fuel call s m v = Val ((s', m'), r) ->
+  r <> Err (VIo EInterrupted) /\ exists s1 m1, call s1 m1 v = Val ((s', m'), r).
+Proof.
+  induction fuel as [|f IH]; intros s m v s' m' r H; [discriminate|].
+  cbn [retry_eintr] in H. destruct (call s m v) as [[[s1 m1] r1]| |] eqn:E; cbn [bind] in H; try discriminate.
+  destruct r1 as [n|[[| | |]| |]]; try (inversion H; subst; split; [discriminate|eauto]).
+  apply IH in H. exact H.
+Qed.
+
+Lemma vs_offset_err_kind v n e : vs_offset v n = Err e -> e = VOutOfBounds \/ e = VOverflow.
+Proof.
+  unfold vs_offset. destruct (checked_add (vs_addr v) n); [|intros H; inversion H; auto].
+  destruct (checked_sub (vs_len v) n); intros H; inversion H; auto.
+Qed.
+Lemma vs_subslice_err_kind v o n e : vs_subslice v o n = Err e -> e = VOutOfBounds \/ e = VOverflow.
+Proof.
+  unfold vs_subslice. destruct (checked_add o n); [|intros H; inversion H; auto].
+  destruct (vs_len v <? n0); intros H; inversion H; auto.
+Qed.
+
+Lemma exact_loop_last {S} zerr fi (call : callT S) : forall fuel s m pb s' m' e,
+  exact_loop zerr fi fuel call s m pb = Val ((s', m'), Err (VIo e)) ->
+  exists s1 m1 pb1, vs_len pb1 <> 0 /\
+    ((e <> EInterrupted /\ call s1 m1 pb1 = Val ((s', m'), Err (VIo e)))
+     \/ (e = zerr /\ call s1 m1 pb1 = Val ((s', m'), Ok 0))).
+Proof.
+  induction fuel as [|f IH]; intros s m pb s' m' e H; [discriminate|].
+  cbn [exact_loop] in H. destruct (N.eqb_spec (vs_len pb) 0) as [Hz|Hz]; [discriminate|].
+  destruct (retry_eintr fi call s m pb) as [[[s1 m1] r1]| |] eqn:E; cbn [bind] in H; try discriminate.
+  destruct (retry_last call fi s m pb s1 m1 r1 E) as (Hne & s2 & m2 & Hcall).
+  destruct r1 as [n|e1].
+  - destruct (N.eqb_spec n 0) as [Hn|Hn].
+    + inversion H; subst. exists s2, m2, pb. split; [exact Hz|]. right. auto.
+    + destruct (vs_offset pb n) as [pb'|e2] eqn:Eo.
+      * eapply IH. exact H.
+      * inversion H; subst. destruct (vs_offset_err_kind _ _ _ Eo); discriminate.
+  - inversion H; subst. exists s2, m2, pb. split; [exact Hz|]. left. split; [|exact Hcall].
+    intros ->. apply Hne. reflexivity.
+Qed.
+
+Definition ZeroStop (rd : bool) (s' : sstream) : Prop :=
+  (exists d b, k_done s' = d ++ [b] /\ zeroish b = true) \/ (rd = true /\ k_src s' = []).
+
+Lemma callb_zero rd s m v s' m' : callb rd s m v = Val ((s', m'), Ok 0) -> vs_len v <> 0 -> ZeroStop rd s'.
+Proof.
+  intros H Hv.
+  assert (Hd : forall src sink, k_done (advance s src sink) = k_done s ++ [next_beh s]) by reflexivity.
+  destruct rd; unfold callb, sr_call, sw_call in H.
+  - assert (Hsrc : forall a, a <> 0 -> nlen (ntake a (k_src s)) = 0 -> k_src s = []).
+    { intros a Ha E. rewrite nlen_ntake in E. apply nlen_zero. lia. }
+    assert (Hs' : forall a sink m1, a <> 0 ->
+              Val ((advance s (ndrop (nlen (ntake a (k_src s))) (k_src s)) sink, m1), Ok (nlen (ntake a (k_src s))))
+              = Val ((s', m'), @Ok N 0) -> ZeroStop true s').
+    { intros a sink m1 Ha E. assert (E0 : nlen (ntake a (k_src s)) = 0) by (inversion E; reflexivity).
+      right. split; [reflexivity|]. inversion E. cbn [advance k_src]. rewrite (Hsrc a Ha E0). apply ndrop_all. cbn. lia. }
+    destruct (next_beh s) eqn:Eb; try discriminate H.
+    + eapply Hs'; [|exact H]. exact Hv.
+    + destruct (N.eqb_spec k 0) as [Hk|Hk].
+      * left. exists (k_done s), (Short k). split; [inversion H; rewrite Hd; reflexivity|].
+        cbn [zeroish]. apply N.eqb_eq. exact Hk.
+      * eapply Hs'; [|exact H]. cbn [amount]. lia.
+    + left. exists (k_done s), Zero. split; [inversion H; rewrite Hd; reflexivity|reflexivity].
+  - destruct (next_beh s) eqn:Eb; try discriminate H.
+    + exfalso. inversion H. cbn [amount] in *. contradiction.
+    + left. exists (k_done s), (Short k). split; [inversion H; rewrite Hd; reflexivity|].
+      cbn [zeroish]. apply N.eqb_eq. inversion H. cbn [amount] in *. lia.
+    + left. exists (k_done s), Zero. split; [inversion H; rewrite Hd; reflexivity|reflexivity].
+Qed.
+Lemma callb_err rd s m v s' m' e : callb rd s m v = Val ((s', m'), Err (VIo e)) -> e = EInterrupted \/ e = EOther.
+Proof.
+  intros H. destruct rd; unfold callb, sr_call, sw_call in H; destruct (next_beh s); inversion H; auto.
+Qed.
+
+Lemma exact_loop_why rd zerr fi fuel s m pb s' m' e :
+  exact_loop zerr fi fuel (callb rd) s m pb = Val ((s', m'), Err (VIo e)) -> e = EOther \/ ZeroStop rd s'.
+Proof.
+  intros H. destruct (exact_loop_last _ _ _ _ _ _ _ _ _ _ H) as (s1 & m1 & pb1 & Hl & [[Hne Hc]|[_ Hc]]).
+  - left. destruct (callb_err _ _ _ _ _ _ _ Hc); [contradiction|assumption].
+  - right. eapply callb_zero; eassumption.
+Qed.
+Lemma vs_exact_io_why rd zerr fuel self addr s m count s' m' e :
+  vs_exact zerr fuel (callb rd) self addr s m count = Val ((s', m'), Err (VIo e)) -> e = EOther \/ ZeroStop rd s'.
+Proof.
+  unfold vs_exact, exact_volatile. intros H.
+  destruct (vs_subslice self addr count) as [sl|e1] eqn:E1.
+  - destruct (vs_offset sl 0) as [pb|e2] eqn:E2.
+    + eapply exact_loop_why. exact H.
+    + inversion H; subst. destruct (vs_offset_err_kind _ _ _ E2); discriminate.
+  - inversion H; subst. destruct (vs_subslice_err_kind _ _ _ _ E1); discriminate.
+Qed.
+
+(* a request whose range leaves the window is not fully mapped *)
+Lemma flat_read_hole t m : forall n a i, (i < n)%nat -> idx_of t (a + N.of_nat i) = None -> flat_read t m a n = None.
+Proof.
+  induction n as [|n IH]; intros a i Hi Hn; [lia|]. cbn [flat_read].
+  destruct i as [|i].
+  - change (N.of_nat 0) with 0 in Hn. rewrite N.add_0_r in Hn. rewrite Hn. reflexivity.
+  - destruct (idx_of t a) as [j|]; [|reflexivity].
+    rewrite (IH (a + 1) i); [destruct (nth_error m (N.to_nat j)); reflexivity|lia|].
+    replace (a + 1 + N.of_nat i) with (a + N.of_nat (S i)) by lia. exact Hn.
+Qed.
+Lemma not_fully_mapped t self m addr count : window_of t self -> vs_len self < addr + count ->
+  judged t addr count -> fully_mapped t m addr count = false.
+Proof.
+  intros Hw Hlt Hj. unfold fully_mapped.
+  assert (Hc : 0 < count).
+  { destruct Hj as [Hj|Hj]; [exact Hj|]. rewrite Hw in Hj. destruct (N.ltb_spec addr (vs_len self)); [lia|congruence]. }
+  set (a := N.max addr (vs_len self)).
+  rewrite (flat_read_hole t m (N.to_nat count) addr (N.to_nat (a - addr))).
+  - apply andb_false_r.
+  - unfold a. lia.
+  - rewrite N2Nat.id. replace (addr + (a - addr)) with a by (unfold a; lia). rewrite Hw.
+    destruct (N.ltb_spec a (vs_len self)); [unfold a in *; lia|reflexivity].
+Qed.
+
+(* the exact form of a slice refused before any call: the range leaves the slice *)
+Lemma vs_exact_refused (rd : bool) zerr t self fuel s m addr count s' m' e :
+  window_of t self -> in_bounds self m -> vs_addr self + vs_len self < W64 ->
+  (length (k_script s) < fuel)%nat -> Clean (k_done s) ->
+  vs_exact zerr fuel (callb rd) self addr s m count = Val ((s', m'), Err e) -> (forall io, e <> VIo io) ->
+  s' = s /\ (judged t addr count -> fully_mapped t m addr count = false).
+Proof.
+  intros Hw Hb Ha Hf Hc H Hne. unfold vs_exact, vs_subslice, checked_add in H.
+  destruct (N.ltb_spec (addr + count) W64) as [Hfit|Hovf].
+  - destruct (N.ltb_spec (vs_len self) (addr + count)) as [Hout|Hin].
+    + inversion H; subst. split; [reflexivity|]. intros Hj. eapply not_fully_mapped; eassumption.
+    + exfalso. unfold exact_volatile in H.
+      set (sl := {| vs_addr := vs_addr self + addr; vs_off := vs_off self + addr; vs_len := count |}) in H.
+      rewrite (vs_offset_ok sl 0) in H by (unfold sl; cbn [vs_addr vs_len]; lia).
+      set (pb := {| vs_addr := vs_addr sl + 0; vs_off := vs_off sl + 0; vs_len := vs_len sl - 0 |}) in H.
+      destruct (exact_loop_spec rd zerr fuel fuel s m pb)
+        as (s1 & m1 & r1 & k & He & _ & _ & _ & _ & _ & Hres); auto.
+      { unfold in_bounds, pb, sl in *. cbn [vs_off vs_len]. lia. }
+      { unfold pb, sl. cbn [vs_addr vs_len]. lia. }
+      rewrite He in H. inversion H; subst.
+      destruct Hres as [(E & _)|[(E & _)|(E & _)]]; try discriminate E; inversion E; eapply Hne; eauto.
+  - inversion H; subst. split; [reflexivity|]. intros Hj. eapply not_fully_mapped; try eassumption.
+    unfold in_bounds in Hb. lia.
+Qed.
+
+Lemma GMoved_det rd t s m a k s' m' : GMoved rd t s m a k s' m' ->
+  k = if rd then nlen (k_src s) - nlen (k_src s') else nlen (k_sink s') - nlen (k_sink s).
+Proof.
+  destruct rd; cbn [GMoved].
+  - intros (A1 & A2 & _). rewrite A1, nlen_ndrop. lia.
+  - intros (bs & A1 & A2 & _). rewrite A2. apply flat_read_length in A1. unfold nlen. rewrite app_length, A1. lia.
+Qed.
+
+(* why a try_access callback moved nothing / failed *)
+Definition CbWhy (rd : bool) (f : cbT sstream) : Prop :=
+  forall total len start region s m s' m' r, start < g_len region -> 0 < len ->
+    f total len start region s m = Val ((s', m'), r) ->
+    match r with
+    | GOk k => k = 0 -> ZeroStop rd s'
+    | GErr (GIo e) => e = EOther \/ ZeroStop rd s'
+    | GErr _ => True
+    end.
+
+Lemma cb_upto_why rd F : CbWhy rd (cb_upto F (callb rd)).
+Proof.
+  intros total len start region s m s' m' r Hst Hlen H. unfold cb_upto, region_upto, vs_upto in H.
+  destruct (vs_offset (region_slice region) start) as [sl|e1] eqn:Eo.
+  - assert (Hsl : vs_len sl = g_len region - start).
+    { unfold vs_offset in Eo. destruct (checked_add (vs_addr (region_slice region)) start); [|discriminate Eo].
+      destruct (checked_sub (vs_len (region_slice region)) start) as [x|] eqn:Ec; [|discriminate Eo].
+      apply checked_sub_Some in Ec. cbn [region_slice vs_len] in Ec. inversion Eo. cbn [vs_len]. lia. }
+    destruct (vs_subslice sl 0 (N.min (vs_len sl) len)) as [sl2|e2] eqn:Es; [|cbn [omap] in H; discriminate H].
+    assert (Hsl2 : vs_len sl2 = N.min (vs_len sl) len).
+    { unfold vs_subslice in Es. destruct (checked_add 0 (N.min (vs_len sl) len)); [|discriminate Es].
+      destruct (vs_len sl <? n); [discriminate Es|]. inversion Es. reflexivity. }
+    destruct (retry_eintr F (callb rd) s m sl2) as [[[s1 m1] r1]| |] eqn:Er; cbn [omap fst snd] in H; try discriminate H.
+    inversion H; subst s1 m1 r. clear H.
+    destruct (retry_last _ _ _ _ _ _ _ _ Er) as (Hne & s2 & m2 & Hcall).
+    destruct r1 as [k|[e| |]]; cbn [map_err gerr_of]; auto.
+    + intros ->. eapply callb_zero; [exact Hcall|]. lia.
+    + left. destruct (callb_err _ _ _ _ _ _ _ Hcall) as [->| ->]; [exfalso; apply Hne; reflexivity|reflexivity].
+  - cbn [omap fst snd] in H. inversion H; subst.
+    destruct (vs_offset_err_kind _ _ _ Eo) as [->| ->]; cbn [map_err gerr_of]; exact I.
+Qed.
+Lemma cb_all_why rd F : CbWhy rd (cb_all F (callb rd)).
+Proof.
+  intros total len start region s m s' m' r Hst Hlen H. unfold cb_all, region_exact in H.
+  destruct (vs_exact EWriteZero F (callb rd) (region_slice region) start s m len) as [[[s1 m1] r1]| |] eqn:Ev;
+    cbn [omap fst snd] in H; try discriminate H.
+  inversion H; subst s1 m1 r. clear H.
+  destruct r1 as [u|[e| |]]; cbn [map_err gerr_of]; auto.
+  - intros ->. lia.
+  - eapply vs_exact_io_why. exact Ev.
+Qed.
+
+(* try_access, with cur = addr + total: it returns a count below the request only at an unmapped address or after
+   a callback that moved nothing *)
+Lemma try_access_why (rd : bool) md L M f F count addr :
+  wf_regions L 0 = true -> total_len L = M -> CbSpec rd L M f F -> CbWhy rd f -> count < W64 ->
+  forall fuel cur total s m, (length (k_script s) < fuel)%nat -> (length (k_script s) < F)%nat ->
+    Clean (k_done s) -> nlen m = M -> cur < W64 -> cur = addr + total -> (total < count \/ total = 0) ->
+    match try_access md fuel L count addr f cur total s m with
+    | Val ((s', m'), r) =>
+        match r with
+        | GOk res => res = count \/ idx_of (TGuest L) (addr + res) = None \/ ZeroStop rd s'
+        | GErr (GIo e) => e = EOther \/ ZeroStop rd s'
+        | GErr _ => True
+        end
+    | _ => True
+    end.
+Proof.
+  intros Hwf HM Hcb Hwhy Hcount.
+  induction fuel as [|fl IH]; intros cur total s m Hf HF Hc Hm Hcur Hta Htot; [exact I|].
+  cbn [try_access]. unfold find_region.
+  destruct (find (fun r => contains r cur) L) as [region|] eqn:Efind.
+  2:{ destruct (N.eqb_spec total 0) as [Hz|Hz]; [exact I|].
+      right. left. cbn [idx_of]. rewrite <- Hta, Efind. reflexivity. }
+  apply find_some in Efind. destruct Efind as [Hin Hcont].
+  destruct (wf_regions_in L 0 region Hwf Hin) as (Hlen & Hend & _ & Hmoff).
+  pose proof Hcont as Hcont'. apply contains_iff in Hcont'.
+  unfold to_region_addr, checked_sub.
+  destruct (N.leb_spec (g_start region) cur) as [_|Hbad]; [|lia].
+  destruct (N.ltb_spec (cur - g_start region) (g_len region)) as [_|Hbad]; [|lia].
+  set (start := cur - g_start region).
+  rewrite psub_Val by (unfold start; lia). rewrite psub_Val by lia. cbn [bind].
+  set (len := N.min (g_len region - start) (count - total)).
+  destruct (Hcb total len start region s m Hin) as (s1 & m1 & r1 & k & Hcall & Hli & Hl & Hp & HMv & Hk & Hres); auto.
+  { unfold len. lia. }
+  rewrite Hcall. cbn [bind].
+  pose proof (Hwhy total len start region s m s1 m1 r1) as Hw1.
+  assert (Hm1 : nlen m1 = M).
+  { rewrite <- Hm. eapply Moved_len; [|exact HMv]. unfold len, start in *. lia. }
+  destruct Hres as [(-> & Hc1)|[(-> & Hc1)|(e & -> & He & Hc1 & Hklt)]].
+  - destruct (N.eqb_spec k 0) as [Hk0|Hk0].
+    + destruct (N.eq_dec total count) as [Heq|Hne]; [left; exact Heq|].
+      right. right. apply Hw1; [unfold start; lia|unfold len, start; lia|exact Hcall|exact Hk0].
+    + unfold checked_add. destruct (N.ltb_spec (total + k) W64) as [_|Hbad]; [|unfold len in Hk; lia].
+      destruct (N.ltb_spec (total + k) count) as [Hmore|Hdone].
+      * unfold overflowing_add. destruct (N.leb_spec W64 (cur + k)) as [Hbad|_];
+          [unfold len, start in Hk; lia|]. cbn [negb].
+        rewrite N.mod_small by (unfold len, start in Hk; lia).
+        apply IH; auto.
+        { assert ((length (k_script s1) < length (k_script s))%nat) by (apply Hp; lia). lia. }
+        { lia. } { unfold len, start in Hk; lia. } { lia. }
+      * destruct (N.eqb_spec (total + k) count) as [Heq|Hne]; [|exfalso; unfold len in Hk; lia].
+        left. exact Heq.
+  - left. reflexivity.
+  - apply Hw1; [unfold start; lia|unfold len, start; lia|exact Hcall].
+Qed.
+
+(* the guest-level exact forms: success, a hard error, or one of the excuses *)
+Lemma gm_exact_why (rd : bool) md L M f F count addr s m s' m' r :
+  wf_regions L 0 = true -> total_len L = M -> CbSpec rd L M f F -> CbWhy rd f -> count < W64 -> addr < W64 ->
+  (length (k_script s) < F)%nat -> Clean (k_done s) -> nlen m = M ->
+  try_access md F L count addr f addr 0 s m = Val ((s', m'), r) ->
+  r = GOk count \/ r = GErr (GIo EOther)
+  \/ idx_of (TGuest L) (addr + (if rd then nlen (k_src s) - nlen (k_src s') else nlen (k_sink s') - nlen (k_sink s))) = None
+  \/ ZeroStop rd s'.
+Proof.
+  intros Hwf HM Hcb Hwhy Hcount Haddr Hf Hc Hm H.
+  destruct (try_access_post rd md L M f F count addr Hwf HM Hcb Hcount F addr 0 s m)
+    as (s1 & m1 & r1 & K & Hr & _ & HG & _ & Hres); auto.
+  pose proof (try_access_why rd md L M f F count addr Hwf HM Hcb Hwhy Hcount F addr 0 s m Hf Hf Hc Hm Haddr) as Hw.
+  rewrite H in Hr, Hw. inversion Hr; subst s1 m1 r1. clear Hr.
+  specialize (Hw (eq_sym (N.add_0_r addr)) (or_intror eq_refl)).
+  apply GMoved_det in HG.
+  destruct Hres as [(-> & _ & _)|[(-> & _ & -> & _ & Hidx)|[(-> & _)|(e & -> & He & _ & _)]]];
+    rewrite ?N.add_0_l in *.
+  - destruct Hw as [Hw|[Hw|Hw]]; [left; f_equal; exact Hw|right; right; left; rewrite <- HG; exact Hw|right; right; right; exact Hw].
+  - right. right. left. rewrite <- HG, N.add_0_r. exact Hidx.
+  - right. left. reflexivity.
+  - destruct Hw as [->|Hw]; [destruct He; discriminate|right; right; right; exact Hw].
+Qed.
+
+Definition mv14 (c : case14) (s : sstream) : N :=
+  if is_read (c_op c) then nlen (c_src c) - nlen (k_src s) else nlen (k_sink s).
+Definition WhyC (c : case14) (s' : sstream) : Prop :=
+  idx_of (c_target c) (c_addr c + mv14 c s') = None
+  \/ (s' = stream0 c /\ fully_mapped (c_target c) (c_mem c) (c_addr c) (c_count c) = false)
+  \/ ZeroStop (is_read (c_op c)) s'.
+
+Lemma exec_why c s' m' rk a b : wf14 c = true -> is_exact (c_op c) = true ->
+  exec14 c = Val ((s', m'), (rk, a, b)) -> rk <> 1 -> rk <> 5 -> judged (c_target c) (c_addr c) (c_count c) -> WhyC c s'.
+Proof.
+  intros Hwf Hx H H1 H5 Hj. unfold wf14 in Hwf. rewrite !andb_true_iff in Hwf. destruct Hwf as [[[Ht HB] Haddr] Hcount].
+  apply N.ltb_lt in HB, Haddr, Hcount.
+  assert (Hf : (length (k_script (stream0 c)) < fuel14 c)%nat) by (unfold fuel14; cbn [stream0 k_script]; lia).
+  assert (Hc : Clean (k_done (stream0 c))) by apply Clean_nil.
+  unfold exec14 in H.
+  assert (Hcall : call_of (c_op c) = callb (is_read (c_op c))) by reflexivity.
+  rewrite Hcall in H. unfold WhyC.
+  (* the result of a slice-level exact form *)
+  assert (Hvs : forall t self r1, c_target c = t -> window_of t self -> in_bounds self (c_mem c) ->
+            vs_addr self + vs_len self < W64 ->
+            vs_exact (zero_err_of (c_op c)) (fuel14 c) (callb (is_read (c_op c))) self (c_addr c) (stream0 c) (c_mem c) (c_count c)
+            = Val ((s', m'), r1) ->
+            match r1 with
+            | Ok _ => True
+            | Err (VIo e) => e = EOther \/ WhyC c s'
+            | Err _ => WhyC c s'
+            end).
+  { intros t self r1 Et Hw Hb Ha Ev. unfold WhyC. rewrite Et.
+    destruct r1 as [u|[e| |]]; [exact I| | |].
+    - destruct (vs_exact_io_why _ _ _ _ _ _ _ _ _ _ _ Ev) as [->|Hz]; [left; reflexivity|right; right; right; exact Hz].
+    - destruct (vs_exact_refused _ _ t _ _ _ _ _ _ _ _ _ Hw Hb Ha Hf Hc Ev) as [-> Hfm]; [intros io; discriminate|].
+      right. left. split; [reflexivity|]. apply Hfm. rewrite <- Et. exact Hj.
+    - destruct (vs_exact_refused _ _ t _ _ _ _ _ _ _ _ _ Hw Hb Ha Hf Hc Ev) as [-> Hfm]; [intros io; discriminate|].
+      right. left. split; [reflexivity|]. apply Hfm. rewrite <- Et. exact Hj. }
+  unfold WhyC in Hvs.
+  destruct (c_target c) as [soff slen|r|L] eqn:Et.
+  - apply N.leb_le in Ht. rewrite Hx in H.
+    set (self := {| vs_addr := HBASE + soff; vs_off := soff; vs_len := slen |}) in *.
+    assert (Hw : window_of (TSlice soff slen) self) by (intros x; reflexivity).
+    assert (Hb : in_bounds self (c_mem c)) by (unfold in_bounds, self; cbn [vs_off vs_len]; lia).
+    assert (Ha : vs_addr self + vs_len self < W64) by (unfold self; cbn [vs_addr vs_len]; lia).
+    destruct (vs_exact (zero_err_of (c_op c)) (fuel14 c) (callb (is_read (c_op c))) self (c_addr c) (stream0 c) (c_mem c) (c_count c))
+      as [[[s1 m1] r1]| |] eqn:Ev; cbn [omap fst snd] in H; try discriminate H.
+    inversion H; subst s1 m1. specialize (Hvs _ self r1 eq_refl Hw Hb Ha Ev).
+    destruct r1 as [u|[e| |]]; cbn [rc_res rc_io] in *; unfold okc_u in *.
+    + exfalso. apply H1. congruence.
+    + destruct Hvs as [->|Hvs]; [exfalso; apply H5; cbn [rc_io] in *; congruence|exact Hvs].
+    + exact Hvs.
+    + exact Hvs.
+  - rewrite !andb_true_iff in Ht. destruct Ht as [[[Hr1 Hr2] Hr3] Hr4].
+    apply N.eqb_eq in Hr1, Hr2. apply N.ltb_lt in Hr3, Hr4. rewrite Hx in H.
+    assert (Hw : window_of (TRegion r) (region_slice r)) by (intros x; reflexivity).
+    assert (Hb : in_bounds (region_slice r) (c_mem c)) by (unfold in_bounds, region_slice; cbn [vs_off vs_len]; lia).
+    assert (Ha : vs_addr (region_slice r) + vs_len (region_slice r) < W64)
+      by (unfold region_slice; cbn [vs_addr vs_len]; lia).
+    unfold region_exact in H.
+    destruct (vs_exact (zero_err_of (c_op c)) (fuel14 c) (callb (is_read (c_op c))) (region_slice r) (c_addr c) (stream0 c) (c_mem c) (c_count c))
+      as [[[s1 m1] r1]| |] eqn:Ev; cbn [omap fst snd] in H; try discriminate H.
+    rewrite rc_gres_map_err in H.
+    inversion H; subst s1 m1. specialize (Hvs _ (region_slice r) r1 eq_refl Hw Hb Ha Ev).
+    destruct r1 as [u|[e| |]]; cbn [rc_res rc_io] in *; unfold okc_u in *.
+    + exfalso. apply H1. congruence.
+    + destruct Hvs as [->|Hvs]; [exfalso; apply H5; cbn [rc_io] in *; congruence|exact Hvs].
+    + exact Hvs.
+    + exact Hvs.
+  - rewrite andb_true_iff in Ht. destruct Ht as [Hwf HM]. apply N.eqb_eq in HM.
+    assert (HB' : HBASE + nlen (c_mem c) < W64) by exact HB.
+    unfold mv14.
+    destruct (c_op c) eqn:Eo; try discriminate Hx; cbn [is_read callb] in *.
+    + unfold gm_read_exact_volatile_from, gm_exact_of, gm_read_volatile_from in H.
+      destruct (try_access (c_mode c) (fuel14 c) L (c_count c) (c_addr c)
+                  (fun _ len caddr region s m => region_upto (fuel14 c) sr_call region caddr s m len)
+                  (c_addr c) 0 (stream0 c) (c_mem c)) as [[[s1 m1] r1]| |] eqn:Et'; cbn [omap fst snd] in H; try discriminate H.
+      inversion H; subst s1 m1. 
+      destruct (gm_exact_why true (c_mode c) L _ (cb_upto (fuel14 c) (callb true)) (fuel14 c) (c_count c) (c_addr c)
+                  (stream0 c) (c_mem c) s' m' r1 Hwf HM (cb_upto_spec true L _ (fuel14 c) Hwf HM HB')
+                  (cb_upto_why true (fuel14 c)) Hcount Haddr Hf Hc eq_refl Et') as [->|[->|[Hi|Hz]]].
+      * exfalso. apply H1. rewrite N.eqb_refl in *. cbn [rc_gres] in *; unfold okc_u in *. congruence.
+      * exfalso. apply H5. cbn [rc_gres rc_io] in *. congruence.
+      * left. cbn [stream0 k_src] in Hi. exact Hi.
+      * right. right. exact Hz.
+    + unfold gm_write_all_volatile_to, gm_exact_of, gm_write_volatile_to in H.
+      destruct (try_access (c_mode c) (fuel14 c) L (c_count c) (c_addr c)
+                  (fun _ len caddr region s m =>
+                     omap (fun x => (fst x, match snd x with GOk _ => GOk len | GErr e => GErr e end))
+                          (region_exact EWriteZero (fuel14 c) sw_call region caddr s m len))
+                  (c_addr c) 0 (stream0 c) (c_mem c)) as [[[s1 m1] r1]| |] eqn:Et'; cbn [omap fst snd] in H; try discriminate H.
+      inversion H; subst s1 m1.
+      destruct (gm_exact_why false (c_mode c) L _ (cb_all (fuel14 c) (callb false)) (fuel14 c) (c_count c) (c_addr c)
+                  (stream0 c) (c_mem c) s' m' r1 Hwf HM (cb_all_spec false L _ (fuel14 c) Hwf HM HB')
+                  (cb_all_why false (fuel14 c)) Hcount Haddr Hf Hc eq_refl Et') as [->|[->|[Hi|Hz]]].
+      * exfalso. apply H1. rewrite N.eqb_refl in *. cbn [rc_gres] in *; unfold okc_u in *. congruence.
+      * exfalso. apply H5. cbn [rc_gres rc_io] in *. congruence.
+      * left. cbn [stream0 k_sink] in Hi. rewrite nlen_nil, N.sub_0_r in Hi. exact Hi.
+      * right. right. exact Hz.
+Qed.
+
+Lemma progress_model_ok c : wf14 c = true -> progress14 c (run_C14 c) = true.
+Proof.
+  intros Hwf. destruct (exec_post c Hwf) as (s' & m' & [[rk a] b] & He & Hli & HP).
+  unfold run_C14. rewrite He. unfold progress14. cbn [o_rk o_calls o_moved].
+  rewrite (LogInv_calls_made _ _ Hli).
+  destruct (progress_applies (c_target c) (c_addr c) (c_count c) (c_op c) rk (k_done s')) eqn:Ea; [|reflexivity].
+  unfold progress_applies in Ea. rewrite !andb_true_iff in Ea. destruct Ea as [[[Hx Hrk] Hh] Hjb].
+  apply negb_true_iff in Hrk, Hh. apply N.eqb_neq in Hrk.
+  assert (Hj : judged (c_target c) (c_addr c) (c_count c)).
+  { apply orb_true_iff in Hjb. destruct Hjb as [Hjb|Hjb]; [left; apply N.ltb_lt; exact Hjb|].
+    right. destruct (idx_of (c_target c) (c_addr c)); [discriminate|discriminate]. }
+  destruct HP as (k & HG & Hkc & (_ & _ & HL) & HR). cbn [rk_of fst snd] in *.
+  rewrite Hh in HL. rewrite Hx in HR. destruct HR as [_ Hiff]. specialize (Hiff Hh Hj).
+  assert (Hklt : k < c_count c) by (assert (k <> c_count c) by (intros E; apply Hrk; apply Hiff; exact E); lia).
+  fold (mv14 c s').
+  assert (Hmv : mv14 c s' = k).
+  { apply GMoved_det in HG. unfold mv14. destruct (is_read (c_op c)); cbn [stream0 k_src k_sink] in HG; rewrite ?nlen_nil in HG; lia. }
+  destruct (exec_why c s' m' rk a b Hwf Hx He Hrk HL Hj) as [W|[[W1 W2]|[(d & z & W1 & W2)|[W1 W2]]]];
+    unfold progress_ok.
+  - rewrite W. reflexivity.
+  - assert (E0 : mv14 c s' = 0).
+    { subst s'. unfold mv14. cbn [stream0 k_src k_sink]. destruct (is_read (c_op c)); [lia|reflexivity]. }
+    rewrite E0, W2. subst s'. cbn [stream0 k_done].
+    apply orb_true_iff. left. apply orb_true_iff. left. apply orb_true_iff. right. reflexivity.
+  - apply orb_true_iff. left. apply orb_true_iff. right. rewrite W1.
+    destruct (d ++ [z]) as [|x l] eqn:El; [destruct d; discriminate El|]. rewrite <- El, last_snoc. exact W2.
+  - apply orb_true_iff. right. rewrite W1. apply N.ltb_lt.
+    assert (E : mv14 c s' = nlen (c_src c)) by (unfold mv14; rewrite W1, W2, nlen_nil; lia).
+    rewrite Hmv in *. lia.
+Qed.
+
 Lemma C14_model_ok_lemma : forall c, wf14 c = true -> ok_C14 c (run_C14 c) = true.
 Proof.
-  intros c Hwf. destruct (exec_post c Hwf) as (s' & m' & [[rk a] b] & He & Hli & HP).
+  intros c Hwf. unfold ok_C14. apply andb_true_iff. split; [|apply progress_model_ok; exact Hwf].
+  destruct (exec_post c Hwf) as (s' & m' & [[rk a] b] & He & Hli & HP).
   unfold run_C14. rewrite He. apply post_ok; assumption.
 Qed.
 
